@@ -324,6 +324,9 @@ def run(facts, rep, tier, ctx):
         c09.materialisation_rules(facts, rep, ws, rule="R01.5p")
         # "target is missing" is decided through the resolver (own deletion marker first) for listings as for everything else
         c09.listing_rules(facts, rep, ws, rule="R01.5l")
+        # ... the resolver itself looks at the path's deletion marker on every call (no per-instance "nothing was removed yet" flag:
+        # a second overlay over the same write layer would serve removed entries again)
+        c09.resolver_rules(facts, rep, ws, rule="R01.5r")
         # a failed overlay removal must leave the union unchanged: marker only after the upper copy is gone
         from . import c10
         c10.marker_rules(facts, rep, ws, prefix="R01.5m", only=("R10.1", "R10.3"))
@@ -372,6 +375,7 @@ def run(facts, rep, tier, ctx):
         from . import c07, c09, c10
         k5 = c07.delegation(facts, A, wa, rule="R01.5") + c09.table_u(facts, A, wa, rule="R01.5") + \
             c09.materialisation_rules(facts, A, wa, rule="R01.5p") + c09.listing_rules(facts, A, wa, rule="R01.5l") + \
+            c09.resolver_rules(facts, A, wa, rule="R01.5r") + \
             c10.marker_rules(facts, A, wa, prefix="R01.5m", only=("R10.1", "R10.3")) + c09.relative_join_rules(facts, A, wa, rule="R01.5j")
         rep.floor("async-world contract obligations", k + k2 + k3 + k4 + k5, 150)
     rep.assume("Table O (what the OS enforces per std call) is frozen from POSIX/Linux semantics")
